@@ -171,11 +171,13 @@ def cli_case(ctx, idx, seed, fixed=None):
     workers = rng.choice([1, 2, 3, 8])
     mode = rng.choice(["all", "minimal"])
     sleep = [rng.choice([0, 0.05, 0.12]) for _ in range(n)]
+    if fixed:
+        workers, mode = fixed["workers"], fixed["mode"]
     ws = W.CliWs(ctx, f"c03-{idx}", n, edges, sleep=sleep, workers=workers)
     ins, outs = W.deps_of(n, edges), W.dependants(n, edges)
     nocache = sorted(m for m in range(n) if rng.random() < 0.25)
     if fixed:
-        workers, mode, nocache = fixed["workers"], fixed["mode"], fixed["nocache"]
+        nocache = fixed["nocache"]
     if nocache:
         p = os.path.join(ws.ws, "pkg", "BUILD.json")
         j = json.load(open(p))
